@@ -71,6 +71,14 @@ def run(tier, replay=None):
             toks = ["%.1f" % (r.randint(1, 9) / 10) for _ in E]
             for v in VARIANTS:
                 jobs["d%d-%s" % (i, v)] = ((n, [(a, b, 1) for (a, b) in E], 0, "dense-decimal"), toks, v)
+    if not replay:
+        # near-ties at the bottom of the range: small weights k/1000 plus gaps of a few 1e-10 — far above rounding
+        # (1e-19) but below any "reasonable" absolute tolerance; a relative 1e-9 on totals of ~1e-2 still sees them
+        for i in range(200 if tier == "quick" else 2500):
+            n = r.randint(4, 10); E = gnp(r, n, r.uniform(0.35, 0.8))
+            toks = [repr(r.randint(1, 9) / 1000 + r.choice([0, 0, 1, 2, 4, 7]) * 1e-10) for _ in E]
+            for v in VARIANTS:
+                jobs["n%d-%s" % (i, v)] = ((n, [(a, b, 1) for (a, b) in E], 0, "near-ties"), toks, v)
     text = ""
     for j, (c, toks, v) in jobs.items():
         text += "case %s exactf d 0 %s\n" % (j, v) + "g %d %d\n" % (c[0], len(c[1])) + "".join("e %d %d %s\n" % (u, w_, t) for (u, w_, _), t in zip(c[1], toks)) + "end\n"
@@ -82,7 +90,7 @@ def run(tier, replay=None):
         if why: bad.append((j, why))
     known = [b for b in bad if jobs[b[0]][2].startswith("iso")]
     other = [b for b in bad if not jobs[b[0]][2].startswith("iso")]
-    res.coverage.update({"explanation": "graphs with decimal weights (j/10, j/1000) and random doubles in [1e-3,1e3] through all six exact entry points; the doubles are turned into exact rationals and the C01 oracle (count, simple cycles, GF(2) independence), |ret - sum| and sum <= (1+1e-9) x exact optimum are evaluated in rational arithmetic. Theorems cover validity for ANY per-phase odd cycle and the propagation of a per-phase factor; the floating-point error bound itself is not a theorem.",
+    res.coverage.update({"explanation": "graphs with decimal weights (j/10, j/1000), near-tie weights (k/1000 + a few 1e-10) and random doubles in [1e-3,1e3] through all six exact entry points; the doubles are turned into exact rationals and the C01 oracle (count, simple cycles, GF(2) independence), |ret - sum| and sum <= (1+1e-9) x exact optimum are evaluated in rational arithmetic. Theorems cover validity for ANY per-phase odd cycle and the propagation of a per-phase factor; the floating-point error bound itself is not a theorem.",
         "evaluations": len(jobs), "distinct_nontrivial": len({json.dumps([c[0], c[1], t, v]) for (c, t, v) in jobs.values() if len(c[1]) - c[0] + components(c[0], c[1]) >= 1}),
         "rule": "random structured graph x weight tokens x variant; non-trivial = cycle space dimension >= 1",
         "known_finding_hits": len(known), "samples": [{"n": c[0], "edges": [[u, v, t] for (u, v, _), t in zip(c[1], toks)], "variant": v} for (c, toks, v) in list(jobs.values())[:2]]})
